@@ -93,6 +93,103 @@ def member_loops(ctx: Ctx, f):
     return sel[0], reg[0], sname
 
 
+def _selection_semantics(ctx: Ctx, f: Func, lp: ast.For):
+    """the condition under which the selection loop passes a member over (`<set>.add(f.id); continue`), evaluated in the model
+    (targets None? / recursive False, True, other / exact match / match beneath a named directory): the disjunction over the continues of the
+    conjunction of their guards; a local set in every arm of an if/elif chain right in the loop (`wanted = ...`) stands for what the arms give it.
+    Returns (table, None) or (None, reason)."""
+    cfg = cfg_of(f.node)
+    inner = {id(x) for st in lp.body for x in ast.walk(st)}
+    conts = [n for n in walk(lp) if isinstance(n, ast.Continue)]
+
+    class U(Exception):
+        pass
+
+    def chain_value(name: str):
+        for st in lp.body:
+            if isinstance(st, ast.If):
+                arms, cur = [], st
+                while True:
+                    if not (len(cur.body) == 1 and isinstance(cur.body[0], ast.Assign) and len(cur.body[0].targets) == 1 and isinstance(cur.body[0].targets[0], ast.Name)
+                            and cur.body[0].targets[0].id == name):
+                        arms = None
+                        break
+                    arms.append((cur.test, cur.body[0].value))
+                    if len(cur.orelse) == 1 and isinstance(cur.orelse[0], ast.If):
+                        cur = cur.orelse[0]
+                        continue
+                    if len(cur.orelse) == 1 and isinstance(cur.orelse[0], ast.Assign) and isinstance(cur.orelse[0].targets[0], ast.Name) and cur.orelse[0].targets[0].id == name:
+                        arms.append((None, cur.orelse[0].value))
+                        break
+                    arms = None
+                    break
+                if arms:
+                    return arms
+        return None
+
+    def ev(e, env):
+        tnone, rec, exact, prefix = env
+        if isinstance(e, ast.Constant):
+            return e.value
+        if isinstance(e, ast.BoolOp):
+            vals = (ev(v, env) for v in e.values)
+            if isinstance(e.op, ast.And):
+                r = True
+                for v in vals:
+                    r = v
+                    if not v:
+                        return v
+                return r
+            r = False
+            for v in vals:
+                r = v
+                if v:
+                    return v
+            return r
+        if isinstance(e, ast.UnaryOp) and isinstance(e.op, ast.Not):
+            return not ev(e.operand, env)
+        if isinstance(e, ast.Compare) and len(e.ops) == 1:
+            l, op, r = norm(e.left), e.ops[0], e.comparators[0]
+            if l == "targets" and isinstance(r, ast.Constant) and r.value is None and isinstance(op, (ast.Is, ast.IsNot)):
+                return tnone == isinstance(op, ast.Is)
+            if l == "recursive" and isinstance(r, ast.Constant) and isinstance(r.value, bool) and isinstance(op, (ast.Is, ast.IsNot, ast.Eq, ast.NotEq)):
+                return (rec is r.value) == isinstance(op, (ast.Is, ast.Eq))
+            if norm(r) == "targets" and isinstance(op, (ast.In, ast.NotIn)):
+                if tnone:
+                    raise U("membership in targets although targets is None")
+                return exact == isinstance(op, ast.In)
+        if isinstance(e, ast.Call) and dotted(e.func) == "any" and e.args and "startswith" in norm(e.args[0]) and "targets" in norm(e.args[0]):
+            if tnone:
+                raise U("iteration over targets although targets is None")
+            return prefix
+        if isinstance(e, ast.Name):
+            if e.id == "recursive":
+                return bool(rec)
+            arms = chain_value(e.id)
+            if arms is not None:
+                for t_, v_ in arms:
+                    if t_ is None or ev(t_, env):
+                        return ev(v_, env)
+                raise U(f"{e.id} not assigned")
+        raise U(norm(e)[:60])
+    table = {}
+    try:
+        for tnone in (True, False):
+            for rec in (False, True, None):
+                for exact in (True, False):
+                    for prefix in (True, False):
+                        env = (tnone, rec, exact, prefix)
+                        skip = False
+                        for c in conts:
+                            gs = [(g, p) for g, p in cfg.guards(q.node_for(f, c)) if id(g) in inner]
+                            if all(bool(ev(g, env)) == p for g, p in gs):
+                                skip = True
+                        table[env] = skip
+    except U as u:
+        return None, str(u)
+    return table, None
+
+
 def r09_2(ctx: Ctx) -> None:
     f = shared.szf(ctx, "_extract")
     cfg = cfg_of(f.node)
@@ -104,7 +201,19 @@ def r09_2(ctx: Ctx) -> None:
             and isinstance(p.ast.value.args[1], ast.Constant) and p.ast.value.args[1].value is None
 
     conts = [n for n in walk(lp) if isinstance(n, ast.Continue)]
-    ctx.floor("R09.2", len(conts), 1 if len(selection_scope(ctx, f)) > 1 else 2, "continue statements (filter arms) in the member loop")
+    semantic = None
+    if len(conts) == 1 and len(selection_scope(ctx, f)) <= 1:
+        # the arms are not written out as two filters: the one passing-over is judged by what it computes
+        table, why = _selection_semantics(ctx, f, lp)
+        want = {(tn, rc, ex, pf): ((not tn) and ((rc is False and not ex) or (rc is True and not ex and not pf)))
+                for tn in (True, False) for rc in (False, True, None) for ex in (True, False) for pf in (True, False)}
+        semantic = table is not None and table == want
+        ctx.check(semantic, "R09.2", f, conts[0], "a member is passed over iff targets are given and it is neither named nor (recursive) beneath a named directory",
+                  "the selection of _extract passes members over under another condition than `targets is not None and ((recursive is False and name not in targets) or (recursive is True "
+                  f"and name not in targets and not beneath a target))`: {why or 'decisions ' + str({k: v for k, v in (table or {}).items() if v != want[k]})}",
+                  construct="selection condition")
+    else:
+        ctx.floor("R09.2", len(conts), 1 if len(selection_scope(ctx, f)) > 1 else 2, "continue statements (filter arms) in the member loop")
     for c in conts:
         cn = q.node_for(f, c)
         preds = cn.pred
@@ -125,6 +234,8 @@ def r09_2(ctx: Ctx) -> None:
         ctx.check(ok, "R09.2", f, gate[0] if gate else regl, "the registration loop registers None for exactly the recorded ids, first thing",
                   f"the registration loop of _extract does not start with `if {regl.target.id}.id in {sname}: register None; continue`: members that were not selected get an output, or "
                   "selected ones are dropped", construct="registration of unselected members")
+    if semantic is not None:
+        return  # judged by what the selection computes (above); the shape of the two arms is not there to be looked at
     # the two arms
     tests = [n for n in walk(lp) if isinstance(n, ast.If) and any(isinstance(x, ast.Continue) for x in n.body)]
     helpers = selection_scope(ctx, f)[1:]
